@@ -87,6 +87,17 @@ PROPS = {
         "trusted": BT_TRUST + ["the 15-60 s timer loop (gcloop) is not modelled; a pass is forced through the verif hook with the injected clock"],
         "assumptions": ["interleaved writes at the lock reversals are SetCells on rows that exist during the whole pass (whether a row inserted during a pass is visited by it is engine dependent and not fixed by the property)"],
     },
+    "C17": {
+        "lean": "Emu.Props.C17",
+        "diffs": [
+            {"cmd": "bt", "scenario": "c17", "quick": 120, "thorough": 3000},
+            {"cmd": "bt", "scenario": "c03big", "quick": 12, "thorough": 200},
+            {"cmd": "bt", "scenario": "c14", "quick": 40, "thorough": 800, "no_corpus": True},
+        ],
+        "facts": ["bt.iterator_result_discarded_in"],
+        "trusted": BT_TRUST,
+        "assumptions": ["every program runs on the btree, leveldb-memory and leveldb-disk engines and each is compared with the one Model"],
+    },
     "C02": {
         "lean": "Emu.Props.C02",
         "diffs": [
@@ -99,7 +110,8 @@ PROPS = {
     "C04": {
         "lean": "Emu.Props.C04",
         "diffs": [
-            {"cmd": "gcs", "scenario": "c04", "quick": 120, "thorough": 3000},
+            {"cmd": "gcs", "scenario": "c04x", "quick": 0, "thorough": 0, "exhaustive": True},
+            {"cmd": "gcs", "scenario": "c04", "quick": 100, "thorough": 3000},
         ],
         "facts": [],
         "trusted": GCS_TRUST,
